@@ -425,7 +425,7 @@ def replay_escape(i, rb):
         want = None if (0xD800 <= v <= 0xDFFF or v > 0x10FFFF) else chr(v)
     _, out, _ = replay_call(rb, ["feel", '"%s"' % i["text"]])
     if want is None:
-        bad = out.startswith("VALUE")
+        bad = out.startswith("VALUE") or out.startswith("PANIC")     # an invalid escape is an error, never a crash
     else:
         bad = out != 'VALUE "%s"' % want
     return bad, 'the string literal "%s" evaluates to %s, it denotes %s' % (i["text"], out[:40], ("U+%04X" % ord(want)) if want else "no scalar (error)")
